@@ -33,7 +33,9 @@ def gen_seq(rng, depth, in_body, callable_names, maxlen=4, flags=None):
         elif r < 0.9:
             out.append(gen_call(rng, depth - 1, in_body, callable_names, flags))
         elif r < 0.95 and flags.get("links", True):
-            out.append(L([gen_seq(rng, depth - 1, in_body, callable_names, 2, flags) for _ in range(rng.randint(1, 2))]))
+            largs = [gen_seq(rng, depth - 1, in_body, callable_names, 2, flags) for _ in range(rng.randint(1, 2))]
+            largs[0] = txt("p") + largs[0]            # a link needs a non-blank target
+            out.append(L(largs))
         elif flags.get("nowiki"):
             out.append(N_(rng.choice(["{{t0|z}}", "[[a]]", "* x", "{{{1}}}", "a=b|c", ""])))
         else:
@@ -165,8 +167,11 @@ def coq_lib(lib_ast):
 
 def coq_opts(o):
     names = lambda l: copt(l, lambda x: clist(x, cstr, "str"), "list str")
-    return "mkopts %s (mksel %s %s) false" % (cbool(o.get("parserfns", True)), names(o.get("expand_names")),
-                                              names(o.get("not_expand_names")))
+    hook = lambda on, d: clist(sorted((d or {}).items()) if on else [], lambda kv: "(%s, %s)" % (cstr(kv[0]), cstr(kv[1])),
+                               "str * str")
+    return "mkopts %s (mksel %s %s) false %s %s" % (
+        cbool(o.get("parserfns", True)), names(o.get("expand_names")), names(o.get("not_expand_names")),
+        hook(o.get("tfn"), o.get("tfn_ret")), hook(o.get("pfn"), o.get("pfn_ret")))
 
 
 def has_unsupported(seq):
@@ -193,7 +198,8 @@ def canon_key(k):
 class Ref:
     """Environment-based evaluation; `kludge` reproduces the known trailing-newline deviation (finding C04/#22)."""
 
-    def __init__(self, lib, kludge=False, depth_limit=40, trim_first=None, switch_default_wins=False):
+    def __init__(self, lib, kludge=False, depth_limit=40, trim_first=None, switch_default_wins=False,
+                 opts=None):
         self.lib = {}
         for name, body, pre in lib:
             self.lib[name] = body
@@ -202,6 +208,36 @@ class Ref:
         self.depth_limit = depth_limit
         self.switch_default_wins = switch_default_wins
         self.unsupported = False
+        o = opts or {}
+        self.ea = not o.get("pre_expand", False)          # expand_all at the top level
+        self.parserfns = o.get("parserfns", True)
+        self.expand_names = o.get("expand_names")
+        self.not_expand_names = o.get("not_expand_names")
+        self.pre = {name: bool(pre) for name, body, pre in lib}
+        self.tfn = o.get("tfn_ret", {}) if o.get("tfn") else None
+        self.pfn = o.get("pfn_ret", {}) if o.get("pfn") else None
+        self.log = []
+
+    def stored_name(self, name):
+        n = name.replace("_", " ")
+        if n in self.lib:
+            return n
+        u = n[:1].upper() + n[1:]
+        return u if u in self.lib else None
+
+    def selected(self, name):
+        st = self.stored_name(name)
+        if st is None:
+            return False
+        pre = self.pre[st]
+        e, ne = self.expand_names, self.not_expand_names
+        if e is None and ne is not None:
+            return name not in ne and pre
+        if e is not None and ne is None:
+            return name in e or pre
+        if e is not None and ne is not None:
+            return name not in ne and (name in e or pre)
+        return pre
 
     def lookup(self, name):
         n = name.replace("_", " ")
@@ -210,7 +246,21 @@ class Ref:
         u = n[:1].upper() + n[1:]
         return self.lib.get(u)
 
-    def ev(self, seq, env, depth=0, in_body=False):
+    def ev(self, seq, env, depth=0, in_body=False, ea=None):
+        self._ea_stack = getattr(self, "_ea_stack", [])
+        if ea is None:
+            ea = self._ea_stack[-1] if self._ea_stack else self.ea
+        self._ea_stack.append(ea)
+        try:
+            return self._ev(seq, env, depth, in_body)
+        finally:
+            self._ea_stack.pop()
+
+    @property
+    def cur_ea(self):
+        return self._ea_stack[-1]
+
+    def _ev(self, seq, env, depth, in_body):
         out = []
         for it in seq:
             if isinstance(it, int):
@@ -255,18 +305,61 @@ class Ref:
         name = self.argtext(args[0], env, depth, in_body).strip()
         if ":" in name:
             fn, first = name.split(":", 1)
-            fn = fn.strip().lower()
+            fn = re.sub(r"[\s_]+", " ", fn).lower()
             rest = [txt(first.lstrip())] + list(args[1:])
-            # the first argument text has already been evaluated; treat as inert text
-            if fn == "#if":
-                return self.nl(self.pf_if(rest, env, depth, in_body))
-            if fn == "#ifeq":
-                return self.nl(self.pf_ifeq(rest, env, depth, in_body))
-            if fn == "#switch":
-                return self.nl(self.pf_switch(rest, env, depth, in_body))
-            self.unsupported = True
-            return ""
+            if fn in ("#if", "#ifeq", "#switch") and not self.parserfns:
+                if in_body:
+                    self.unsupported = True      # raw arguments with substituted parameters: left to the model
+                return "{{" + fn + ":" + "|".join([first.lstrip()] + ["\0RAW" + render(a) + "\0" for a in args[1:]]) + "}}"
+            saved = self._ea_stack[-1]
+            self._ea_stack[-1] = True          # parser function arguments are always fully expanded
+            try:
+                return self.call_pf(fn, rest, env, depth, in_body)
+            finally:
+                self._ea_stack[-1] = saved
+        if not self.cur_ea and not self.selected(name):
+            return "{{" + "|".join(self.argtext(a, env, depth, in_body) for a in args) + "}}"
+        return self.call_template(name, args, env, depth, in_body)
+
+    def call_pf(self, fn, rest, env, depth, in_body):
+        # the first argument text has already been evaluated; treat as inert text
+        if fn == "#if":
+            return self.nl(self.pf_if(rest, env, depth, in_body))
+        if fn == "#ifeq":
+            return self.nl(self.pf_ifeq(rest, env, depth, in_body))
+        if fn == "#switch":
+            return self.nl(self.pf_switch(rest, env, depth, in_body))
+        self.unsupported = True
+        return ""
+
+    def call_template(self, name, args, env, depth, in_body):
         ht = {}
+        num = 1
+        saved = self._ea_stack[-1]
+        self._ea_stack[-1] = True              # arguments of an expanded template are fully expanded
+        try:
+            self.bind(args, env, depth, in_body, ht)
+        finally:
+            self._ea_stack[-1] = saved
+        t = None
+        if self.tfn is not None:
+            self.log.append(["t", name, [[k, v] for k, v in ht.items()]])
+            t = self.tfn.get(name)
+        if t is None:
+            body = self.lookup(name)
+            if body is None:
+                t = "[[:Template:" + name + "]]"
+            else:
+                t = self.ev(body, ht, depth + 1, True, ea=self.cur_ea)
+        t = self.nl(t)
+        if self.pfn is not None and t:
+            self.log.append(["p", name, [[k, v] for k, v in ht.items()], t])
+            t2 = self.pfn.get(name)
+            if t2 is not None:
+                t = t2
+        return t
+
+    def bind(self, args, env, depth, in_body, ht):
         num = 1
         for a in args[1:]:
             sp = self.split_named(a)
@@ -278,11 +371,6 @@ class Ref:
             else:
                 ht[num] = self.argtext(a, env, depth, in_body)
                 num += 1
-        body = self.lookup(name)
-        if body is None:
-            return "[[:Template:" + name + "]]"
-        b = body
-        return self.nl(self.ev(b, ht, depth + 1, True))
 
     def ev_named_value(self, v, env, depth, in_body):
         # the code trims the argument text before expanding it
